@@ -8,7 +8,7 @@ from __future__ import annotations
 import asyncio
 import re
 import time
-from typing import Any, Dict, List
+from typing import Any, Dict, List, Optional
 
 from vf import common, sentinel
 from vf.common import Context, Plan, ShardResult, Violation
@@ -43,6 +43,9 @@ def plan(prop: str, tier: str) -> Plan:
 class Session:
     """Real clients + loopback server inside one event loop."""
 
+    def __init__(self, key: str = calls.KEY, secret: str = calls.SECRET):
+        self.key, self.secret = key, secret
+
     async def __aenter__(self):
         import aiohttp
         from basana.core import dispatcher
@@ -53,11 +56,11 @@ class Session:
         self.srv.reply = lambda m, p: (calls.CURRENT["expect"].reply if calls.CURRENT["expect"] is not None else {})
         ov = {"api": {"http": {"base_url": base, "timeout": 30}}}
         self.http = aiohttp.ClientSession()
-        self.bn = bn_client.APIClient(calls.KEY, calls.SECRET, session=self.http, config_overrides=ov)
-        self.bs = bs_client.APIClient(calls.KEY, calls.SECRET, session=self.http, config_overrides=ov)
+        self.bn = bn_client.APIClient(self.key, self.secret, session=self.http, config_overrides=ov)
+        self.bs = bs_client.APIClient(self.key, self.secret, session=self.http, config_overrides=ov)
         d = dispatcher.realtime_dispatcher()
-        self.bn_ex = bn_exchange.Exchange(d, calls.KEY, calls.SECRET, session=self.http, config_overrides=ov)
-        self.bs_ex = bs_exchange.Exchange(d, calls.KEY, calls.SECRET, session=self.http, config_overrides=ov)
+        self.bn_ex = bn_exchange.Exchange(d, self.key, self.secret, session=self.http, config_overrides=ov)
+        self.bs_ex = bs_exchange.Exchange(d, self.key, self.secret, session=self.http, config_overrides=ov)
         return self
 
     async def __aexit__(self, *a):
@@ -78,7 +81,7 @@ class Session:
         return exp, self.srv.requests[n0:], t0, t1, err
 
 
-def check_auth(spec, exp, recs, t0, t1, err, nonces: set) -> List[tuple]:
+def check_auth(spec, exp, recs, t0, t1, err, nonces: set, key: str = calls.KEY, secret: str = calls.SECRET) -> List[tuple]:
     out: List[tuple] = []
     if err is not None and not recs:
         out.append(("request_not_sent", f"{type(err).__name__}: {err}"))
@@ -89,10 +92,10 @@ def check_auth(spec, exp, recs, t0, t1, err, nonces: set) -> List[tuple]:
     rec = recs[-1]
     if spec["client"] == "binance":
         if exp.auth in ("sig", "key"):
-            if rec.header("X-MBX-APIKEY") != calls.KEY:
+            if rec.header("X-MBX-APIKEY") != key:
                 out.append(("api_key_missing", f"X-MBX-APIKEY = {rec.header('X-MBX-APIKEY')!r}"))
         if exp.auth == "sig":
-            sig, want = server.binance_expected_signature(calls.SECRET, rec)
+            sig, want = server.binance_expected_signature(secret, rec)
             if sig is None:
                 out.append(("signature_missing", f"no signature parameter in {rec.raw_query[:120]!r}"))
             elif not HEX64.match(sig) or sig.lower() != want:
@@ -108,8 +111,8 @@ def check_auth(spec, exp, recs, t0, t1, err, nonces: set) -> List[tuple]:
                 out.append(("timestamp_not_current", f"timestamp {ts} outside [{int(t0 * 1000)}, {int(t1 * 1000)}]"))
     else:
         if exp.auth == "bitstamp":
-            sig, want, message = server.bitstamp_expected_signature(calls.SECRET, calls.KEY, rec)
-            if rec.header("X-Auth") != "BITSTAMP " + calls.KEY:
+            sig, want, message = server.bitstamp_expected_signature(secret, key, rec)
+            if rec.header("X-Auth") != "BITSTAMP " + key:
                 out.append(("api_key_missing", f"X-Auth = {rec.header('X-Auth')!r}"))
             if sig is None or sig.lower() != want:
                 out.append(("signature_mismatch", f"{rec.method} {rec.path}: X-Auth-Signature does not verify against the "
@@ -157,7 +160,7 @@ async def concurrent_burst(s, res: ShardResult, nonces: set, n: int) -> None:
     res.count("concurrent_requests", len(recs))
     seen = []
     for rec in recs:
-        sig, want, message = server.bitstamp_expected_signature(calls.SECRET, calls.KEY, rec)
+        sig, want, message = server.bitstamp_expected_signature(s.secret, s.key, rec)
         nonce = rec.header("X-Auth-Nonce")
         if sig is None or sig.lower() != want:
             res.violate(Violation("C16", "signature_mismatch", f"concurrent bitstamp {rec.path}: signature does not verify",
@@ -175,9 +178,11 @@ async def concurrent_burst(s, res: ShardResult, nonces: set, n: int) -> None:
         res.nontrivial.add(common.digest(["burst", n]))
 
 
-async def run_cases(specs: List[Dict[str, Any]], res: ShardResult, prop: str = "C16") -> None:
-    nonces: set = set()
-    async with Session() as s:
+async def run_cases(specs: List[Dict[str, Any]], res: ShardResult, prop: str = "C16", key: str = calls.KEY,
+                    secret: str = calls.SECRET, nonces: Optional[set] = None) -> None:
+    nonces = set() if nonces is None else nonces
+    res.count("sessions:" + common.digest([key, secret], 6))
+    async with Session(key, secret) as s:
         for idx, spec in enumerate(specs):
             if spec.get("burst"):
                 await concurrent_burst(s, res, nonces, spec["burst"])
@@ -194,7 +199,7 @@ async def run_cases(specs: List[Dict[str, Any]], res: ShardResult, prop: str = "
             res.count("auth_" + exp.auth)
             if err is not None:
                 res.count("calls_raised")
-            for kind, msg in check_auth(spec, exp, recs, t0, t1, err, nonces):
+            for kind, msg in check_auth(spec, exp, recs, t0, t1, err, nonces, key, secret):
                 res.violate(Violation("C16", kind, f"{spec['client']} {spec['name']} ({spec['args'].get('acct', '')}): {msg}",
                                       scenario=spec, mechanism=classify(spec, kind, recs[-1] if recs else None)))
             res.count("signatures_verified", 1 if exp.auth in ("sig", "bitstamp") else 0)
@@ -295,6 +300,69 @@ def run_throttled_case(case: Dict[str, Any], res: ShardResult) -> None:
         res.nontrivial.add(common.digest(["throttled", case["client"], case["tpp"], case["period"], case["n"]]))
 
 
+def run_clock_step_case(case: Dict[str, Any], res: ShardResult) -> None:
+    """The wall clock is stepped (NTP correction, manual change, resume from suspend) while a long-lived client is in
+    use: every signed timestamp is still the wall-clock instant at which its request is sent."""
+    import urllib.parse
+    from vf import vclock
+    with vclock.virtual_time() as loop:
+        tr = _VTransport(loop)
+        ov = {"api": {"http": {"base_url": "http://x/"}}}
+        if case["client"] == "binance":
+            from basana.external.binance import client as bn_client
+            cli = bn_client.APIClient(calls.KEY, calls.SECRET, session=tr, config_overrides=ov)
+
+            async def call():
+                await cli.spot_account.get_open_orders("BTCUSDT")
+        else:
+            from basana.external.bitstamp import client as bs_client
+            cli = bs_client.APIClient(calls.KEY, calls.SECRET, session=tr, config_overrides=ov)
+
+            async def call():
+                await cli.get_account_balances()
+        walls: List[float] = []
+
+        async def main():
+            for gap, step in case["script"]:
+                await asyncio.sleep(gap)
+                loop.wall_offset = getattr(loop, "wall_offset", 0.0) + step
+                walls.append(vclock.EPOCH_TS + loop.time() + loop.wall_offset)
+                await call()
+
+        loop.run_until_complete(main())
+    res.evaluations += 1
+    res.count("requests_after_clock_step", len(tr.seen))
+    ok = len(tr.seen) == len(walls)
+    for wall, (t, url, headers, params) in zip(walls, tr.seen):
+        if case["client"] == "binance":
+            qs = dict(urllib.parse.parse_qsl(urllib.parse.urlsplit(url).query))
+            qs.update({k: str(v) for k, v in params.items()})
+            ts = qs.get("timestamp")
+        else:
+            ts = headers.get("X-Auth-Timestamp")
+        if ts is None or not str(ts).isdigit():
+            res.violate(Violation("C16", "timestamp_missing", f"{case['client']}: request without timestamp",
+                                  scenario={"clock_step": case}))
+            ok = False
+            continue
+        age = wall - int(ts) / 1000.0
+        if abs(age) > 0.002:
+            ok = False
+            res.violate(Violation("C16", "timestamp_not_current",
+                                  f"{case['client']}: request sent at wall-clock {wall:.3f} carries timestamp {int(ts) / 1000.0:.3f} "
+                                  f"({age:+.3f}s off) after the wall clock was stepped {case['script']}",
+                                  scenario={"clock_step": case}))
+            break
+    if ok:
+        res.nontrivial.add(common.digest(["clock_step", case["client"], [s_ for _, s_ in case["script"]]]))
+
+
+def gen_clock_step(r) -> Dict[str, Any]:
+    return {"client": r.choice(["binance", "bitstamp"]),
+            "script": [[r.choice([0.0, 0.25, 3.0, 600.0]), r.choice([0.0, 90.0, -210.0, 0.5, -0.004, 3600.0])]
+                       for _ in range(r.randint(2, 5))]}
+
+
 def gen_throttled(r) -> Dict[str, Any]:
     return {"client": r.choice(["binance", "bitstamp"]), "tpp": r.choice([1, 2, 5]), "period": r.choice([1, 2, 10]),
             "init": r.choice([0, 1]), "n": r.randint(3, 12)}
@@ -305,9 +373,17 @@ def run_shard(ctx: Context, res: ShardResult) -> None:
     sen.start()
     try:
         specs = [calls.gen_spec(ctx.rng("c16", i)) for i in ctx.case_ids()]
-        asyncio.run(run_cases(specs, res))
+        nonces: set = set()
+        asyncio.run(run_cases(specs, res, nonces=nonces))
+        # credentials are corrected / rotated without restarting the process: the same API key with another secret,
+        # then another key with the first secret - every request verifies under the credentials of the client sending it
+        n2 = max(40, len(specs) // 8)
+        asyncio.run(run_cases(specs[:n2], res, key=calls.KEY, secret=calls.SECRET[::-1] + "-rotated", nonces=nonces))
+        asyncio.run(run_cases(specs[n2:n2 + n2 // 2], res, key="another-" + calls.KEY, secret=calls.SECRET, nonces=nonces))
         for k in range(max(10, ctx.cases // 100)):
             run_throttled_case(gen_throttled(ctx.rng("c16thr", ctx.shard, k)), res)
+        for k in range(max(10, ctx.cases // 100)):
+            run_clock_step_case(gen_clock_step(ctx.rng("c16step", ctx.shard, k)), res)
     finally:
         sen.stop()
     for name, n in sen.calls.items():
@@ -317,6 +393,8 @@ def run_shard(ctx: Context, res: ShardResult) -> None:
 def replay(prop: str, scenario: Dict[str, Any], res: ShardResult) -> None:
     if "throttled" in scenario:
         run_throttled_case(scenario["throttled"], res)
+    elif "clock_step" in scenario:
+        run_clock_step_case(scenario["clock_step"], res)
     else:
         asyncio.run(run_cases([scenario], res))
 
@@ -325,7 +403,8 @@ def finalize(prop: str, tier: str, merged: ShardResult) -> Dict[str, Any]:
     inc = []
     c = merged.counters
     for k, n in (("signatures_verified", 500), ("auth_sig", 200), ("auth_bitstamp", 100), ("auth_key", 10),
-                 ("throttled_requests", 100), ("concurrent_requests", 50)):
+                 ("throttled_requests", 100), ("concurrent_requests", 50),
+                 ("requests_after_clock_step", 50)):
         if c.get(k, 0) < n:
             inc.append(f"'{k}' observed only {c.get(k, 0)} times (< {n})")
     return {"inconclusive": inc}
